@@ -24,6 +24,43 @@ SNIPPETS = ["x = b'a' 'b'\n", "x = (1,\n\n 2) 3\n", "a = '''m\nn\no''' = 1\n", "
             "x = \"a\x0cb\" 1\ny = 2\n"]
 
 
+# one valid program per construct of the grammar (targets, calls, comprehensions, definitions, imports, compound
+# statements, patterns, operators, literals): the whole 1-edit neighbourhood of each is explored, not a sample
+CORE = [
+ "*a, b = x\n", "a, *b = x\n", "(*a, b) = x\n", "[*a, b] = x\n", "(*a,) = x\n", "[x, *rest] = items\n", "for *a, b in c:\n    pass\n",
+ "for (*a, b) in c:\n    pass\n", "with f() as (*a, b):\n    pass\n", "with f() as a, g() as b:\n    pass\n", "with (f() as a, g() as b):\n    pass\n",
+ "a.b, c[0] = 1, 2\n", "(a) = 1\n", "(a.b) = 1\n", "a = b = c\n", "a += 1\n", "a: int = 1\n", "(a): int\n", "a.b: int\n",
+ "del a, b[0], (c, d)\n", "x = [i for i in y if i]\n", "x = {k: v for k, v in y}\n", "x = (i for (a, *b) in y)\n", "x = {*a, b}\n", "x = {**a, 'b': 1}\n",
+ "f(a, *b, c=1, **d)\n", "f(x for x in y)\n", "f(a)(b)[c].d\n", "x = a if b else c\n", "x = lambda a, *b, c=1, **d: a\n", "x = lambda: 0\n",
+ "def f(a, /, b, *, c=1, **d) -> int:\n    return a\n", "def f(*a: int, b: int = 1):\n    pass\n", "async def f():\n    await x\n",
+ "class A(B, metaclass=C):\n    pass\n", "@d(1)\nclass A:\n    x = 1\n", "import a.b as c, d\n", "from . import a\n", "from .a import (b as c, d)\n", "from a import *\n",
+ "try:\n    pass\nexcept (A, B) as e:\n    pass\nelse:\n    pass\nfinally:\n    pass\n", "try:\n    pass\nexcept* A:\n    pass\n",
+ "while a:\n    break\nelse:\n    continue\n", "if a:\n    pass\nelif b:\n    pass\nelse:\n    pass\n",
+ "match x:\n    case [a, *b]:\n        pass\n    case {'k': v, **r}:\n        pass\n    case A(b, c=1) | None:\n        pass\n    case _ if y:\n        pass\n",
+ "x[a:b, ::2, ...]\n", "x = a[*b]\n", "x = not a or b and c\n", "x = a < b <= c != d is not e not in f\n", "x = -a ** +b // ~c\n", "x = a | b ^ c & d << e >> f\n",
+ "x = (y := 1)\n", "x = (yield a)\n", "def g():\n    x = yield from a\n", "global a, b\n", "nonlocal a\n", "assert a, b\n", "raise A from b\n", "return\n", "return *a, b\n",
+ "x = 'a' 'b' f'{c!r:>{d}}'\n", "x = f'{a}{b=}'\n", "x = b'a' b'b'\n", "x = 1j + 0x1f + 1_0.5e3\n", "x = (1,)\n", "x = ()\n", "x = []\n", "x = {}\n",
+ "print(*a, sep='')\n", "a = yield\n", "for a in b, c:\n    pass\n", "async with a as b:\n    pass\n", "async for a in b:\n    pass\n", "x = [*a, *b]\n",
+ "x = a @ b\n", "pass; pass\n", "x: list[int] = []\n", "type X = int\n", "def f[T](a: T) -> T:\n    return a\n", "class A[T]:\n    pass\n",
+]
+REPL = ["=", ")", "(", "1", "x", "else", "**", "*", ",", ":", "in", "as", "."]
+def sweep(src):
+    """EVERY single-token deletion / duplication / replacement / insertion of a valid one-construct program"""
+    toks = list(tokenize.generate_tokens(io.StringIO(src).readline))
+    lines = src.splitlines(keepends=True)
+    for t in toks:
+        if t.type in (tokenize.NL, tokenize.NEWLINE, tokenize.COMMENT, tokenize.INDENT, tokenize.DEDENT, tokenize.ENDMARKER): continue
+        (l1, c1), (l2, c2) = t.start, t.end
+        if l1 != l2: continue
+        def sp(new):
+            out = list(lines); out[l1-1] = lines[l1-1][:c1] + new + lines[l1-1][c2:]; return "".join(out)
+        yield sp(""), "delete"
+        yield sp(t.string + " " + t.string), "duplicate"
+        for rp in REPL:
+            if rp != t.string:
+                yield sp(rp), "replace"
+                yield sp(t.string + " " + rp), "insert"
+
 def host_rejected_corpus() -> list[str]:
     """the doctest examples of the host interpreter's own test_syntax.py (invalid programs with the expected error);
     used only for the clause-(i) search, and only if the file is installed"""
@@ -69,6 +106,33 @@ def outcome(P, src: str, mode: str, tmpdir: str):
         return ("internal", type(e).__name__, str(e)[:120])
 
 
+_P = None
+_TMP = None
+
+
+def _eval(src: str):
+    """(parse_string outcome, parse_file outcome, what the host's parser says when a tree came back)"""
+    a = outcome(_P, src, "string", _TMP)
+    b = outcome(_P, src, "file", _TMP)
+    host = None
+    if a[0] == "tree":
+        try:
+            with warnings.catch_warnings():
+                warnings.simplefilter("ignore")
+                ast.parse(src)
+            host = ("ok",)
+        except SyntaxError as he:
+            host = ("rej", he.msg, he.lineno)
+        except (ValueError, RecursionError, MemoryError):
+            host = ("other",)
+    return a, b, host
+
+
+def _init(tmp_root: str):
+    global _TMP
+    _TMP = tempfile.mkdtemp(prefix="w-", dir=tmp_root)
+
+
 def edits(r, src: str, n: int):
     """token-level deletion / insertion / replacement / duplication"""
     try:
@@ -112,7 +176,8 @@ def edits(r, src: str, n: int):
 def run(chk: common.Check, tier: str):
     chk.rule = ("invalid programs obtained from the test-suite sources by token-level deletion / insertion / replacement / "
                 "duplication, incl. edits that leave blank lines or multi-line tokens inside the reported range, plus "
-                "hand-written snippets, each through parse_string and parse_file; non-trivial = the edit makes the program "
+                "hand-written snippets, plus EVERY single-token deletion / duplication / replacement / insertion (13 replacement "
+                "tokens) of one valid program per grammar construct, each through parse_string and parse_file; non-trivial = the edit makes the program "
                 "unparsable; distinct by source text")
     r = common.rng("c07")
     P = build_parser()
@@ -130,17 +195,35 @@ def run(chk: common.Check, tier: str):
         corpus = corpus[::2]
     sources += [(s, "host-test_syntax") for s in corpus]
     chk.bump("examples from the host's test_syntax.py", len(corpus))
+    # the whole 1-edit neighbourhood of one valid program per construct
+    seen_src = {s for s, _ in sources}
+    for core in CORE:
+        try:
+            ast.parse(core)
+        except SyntaxError:
+            chk.bump("core program not valid on this host (skipped)")
+            continue
+        sources.append((core, "core-valid"))
+        for s, kind in sweep(core):
+            if s not in seen_src:
+                seen_src.add(s)
+                sources.append((s, "core-" + kind))
     kfs = common.known_findings("C07")
     seen_known = set()
+    global _P
+    _P = P
+    import multiprocessing as mp
     with tempfile.TemporaryDirectory(prefix="pegverif-c07-") as tmp:
-        for src, kind in sources:
-            a = outcome(P, src, "string", tmp)
-            b = outcome(P, src, "file", tmp)
+        with mp.get_context("fork").Pool(min(16, os.cpu_count() or 1), initializer=_init, initargs=(tmp,)) as pool:
+            results = pool.map(_eval, [s for s, _ in sources], chunksize=64)
+        for (src, kind), (a, b, host) in zip(sources, results):
             chk.count()
             chk.bump(f"{kind}:{a[0]}")
             if a[0] != "tree":
                 chk.note_case(src)
             chk.sample({"edit": kind, "source": src[-200:], "parse_string": a[:4], "parse_file": b[:4]}, 4)
+            if kind == "core-valid" and a[0] != "tree":
+                chk.bump("core program valid on the host but refused by the generated parser (not part of this property)")
             nlines = src.count("\n") + 1
             for mode, x in (("parse_string", a), ("parse_file", b)):
                 if x[0] == "internal":
@@ -152,24 +235,24 @@ def run(chk: common.Check, tier: str):
                         continue
                     chk.violation(f"{mode} dies with an internal exception {x[1]}: {x[2]}",
                                   {"source": src, "entry": mode, "exception": x[1], "message": x[2]}, True)
+                elif x[0] == "recursion":
+                    chk.violation(f"{mode} dies with RecursionError on a {len(src)}-character program",
+                                  {"source": src, "entry": mode}, True)
                 elif x[0] == "SyntaxError":
                     if x[2] is None or not (1 <= x[2] <= nlines + 1) or (x[3] is not None and x[3] < 0):
                         chk.violation(f"{mode} raises SyntaxError with a position outside the text: line {x[2]}, column {x[3]}",
                                       {"source": src, "entry": mode, "lineno": x[2], "offset": x[3], "lines": nlines}, True)
             # clause (i), as a SEARCH only (no theorem is possible, DESIGN.md section 11): a text the host's own parser
             # rejects must not come back as a tree.  ast.parse stops after parsing, so compiler-stage errors do not count.
-            if a[0] == "tree":
-                try:
-                    with warnings.catch_warnings():
-                        warnings.simplefilter("ignore")
-                        ast.parse(src)
+            if a[0] == "tree" and host is not None:
+                if host[0] == "ok":
                     chk.bump("host: accepts as well")
-                except SyntaxError as he:
+                elif host[0] == "rej":
                     chk.violation(f"the generated Python parser accepts a program that the host interpreter's parser rejects "
-                                  f"({he.msg}, line {he.lineno})",
-                                  {"source": src, "host_error": he.msg, "host_lineno": he.lineno, "edit": kind,
+                                  f"({host[1]}, line {host[2]})",
+                                  {"source": src, "host_error": host[1], "host_lineno": host[2], "edit": kind,
                                    "how": "parse_string on the source vs ast.parse of the running interpreter"}, True)
-                except (ValueError, RecursionError, MemoryError):
+                else:
                     chk.bump("host: other error (inconclusive)")
             if a[0] != "internal" and b[0] != "internal" and a != b:
                 # the file name differs in nothing we compare; positions, text and message must agree
